@@ -319,11 +319,53 @@ def judge_swap(ctx, case):
                  f"(dimensions {r1}, {r2}, joint {r12})", "span")
 
 
+def judge_dtype(ctx, case):
+    """A factor held in a less common column type (dates with second / nanosecond resolution, time spans, floats, booleans)
+    through C / T / S: one indicator per distinct value, the default reference is the smallest value."""
+    import pandas as pd
+
+    from formulae import design_matrices
+
+    fn, dtype, icept = case["fn"], case["dtype"], case["intercept"]
+    n = 12
+    pos = [(i * 5 + 1) % 3 for i in range(n)]
+    if dtype.startswith("datetime"):
+        vals = pd.to_datetime(["2021-03-01", "2020-01-15", "2022-07-31"]).astype(dtype)
+    elif dtype.startswith("timedelta"):
+        vals = pd.to_timedelta([3, 1, 20], unit="D").astype(dtype)
+    elif dtype == "float32":
+        vals = pd.Index([0.1, 2.5, 1.75], dtype="float32")
+    else:
+        vals = pd.Index([True, False, True])
+    col = pd.Series([vals[p_] for p_ in pos])
+    frame = pd.DataFrame({"y": np.arange(n, dtype=float), "d": col, "x": np.linspace(-1, 1, n)})
+    formula = f"y ~ {'1' if icept else '0'} + {fn}(d)"
+    ctx.count(core.canon(case), True, ["dtype:" + dtype, "design:" + fn], sample=dict(case, formula=formula), stratum="dtype")
+    try:
+        with core.Guard():
+            x = np.asarray(design_matrices(formula, frame).common.design_matrix, dtype=float)
+    except Exception as e:  # pylint: disable=broad-except
+        ctx.fail("dtype", case, f"{formula!r} on a {dtype} column raised {type(e).__name__}: {e}", core.exc_key(e))
+        return
+    distinct = sorted(set(col.tolist()))
+    ind = np.column_stack([(col == v).to_numpy(dtype=float) for v in distinct])
+    nl = len(distinct)
+    if x.shape != (n, nl) or rc.rank(x) != nl or rc.rank(np.column_stack([x, ind])) != nl:
+        ctx.fail("dtype", case, f"{formula!r} on a {dtype} column with {nl} distinct values: matrix of shape {x.shape} and rank "
+                 f"{rc.rank(x) if x.size else 0} does not span the {nl} level indicators", "span")
+    elif fn in ("C", "T"):
+        want = ind if not icept else np.column_stack([np.ones(n), ind[:, 1:]])
+        if not np.array_equal(x, want):
+            ctx.fail("dtype", case, f"{formula!r} on a {dtype} column: columns are not the indicators of the values (reference = smallest value)", "indicators")
+
+
 def judge(ctx, case):
     if ctx.skip():
         return
     k = case.get("kind")
-    if k == "object":
+    if k == "dtype":
+        judge_dtype(ctx, case)
+    elif k == "object":
         judge_object(ctx, case)
     elif k == "levels":
         judge_levels(ctx, case)
@@ -379,6 +421,10 @@ def run(ctx):
     ns = core.NPROC
     maxn = 4 if quick else 5
     ctx.parallel(_enum_worker, [(k, ns, maxn) for k in range(ns)])
+    for dtype in ("datetime64[ns]", "datetime64[s]", "timedelta64[ns]", "float32", "bool"):
+        for fn in ("C", "T", "S"):
+            for icept in (True, False):
+                judge(ctx, {"kind": "dtype", "dtype": dtype, "fn": fn, "intercept": icept})
     ctx.exhaustive["Treatment/Sum objects for 1..12 levels x every reference/omit"] = {"complete": True}
     ctx.exhaustive[f"permutations of <= {maxn} levels as levels= for C/T/S, with/without intercept, str and int data"] = {"complete": True}
     per = 400 if quick else 3000
